@@ -71,6 +71,10 @@ func runC03(p *core.Program, r *core.Report) {
 	// own or registered and replaced by the tracker's name for it (C15.R4)
 	chainRules(p, r, "R15", "C15", []string{"C15.R4"}, "every nested package path is blanked (own package) or registered and rewritten")
 	c03R16(p, r)
+	c03R17(p, r)
+	// R18: "every qualified reference uses the name bound to its package" inside value literals: what the value printer
+	// writes was rendered under its own namer (C10.R14)
+	chainRules(p, r, "R18", "C10", []string{"C10.R14"}, "value literals are written from the printer's own renderings only")
 }
 
 // c03R8: rendering a snippet registers its imports with the tracker of the
@@ -1040,5 +1044,134 @@ func c03R16(p *core.Program, r *core.Report) {
 	}
 	if n == 0 {
 		r.OK(rule, it, "ID never writes its argument as it is", it.Node().Pos(), "every yield goes through the namer or the type printer")
+	}
+}
+
+// c03R17: "every qualified reference uses the name bound to its package": a reference made from text stands for exactly
+// the path and name it was made from. The registration (AddType(Ref(P, N))) and the lookup (LocalNameOf(P)) meet in the
+// tracker only if Ref keeps P as it is: the constructed value's fields are the parameters themselves, and Pkg / Name
+// answer those fields.
+func c03R17(p *core.Program, r *core.Report) {
+	const rule = "R17"
+	r.Floor(rule, 2)
+	f := p.FuncByName("pkg/types", "Ref")
+	if f == nil || f.Decl == nil {
+		r.Anchor(rule, "pkg/types.Ref")
+		return
+	}
+	f = flatten(p, f)
+	info := f.Info()
+	var params []*types.Var
+	for _, fld := range f.Decl.Type.Params.List {
+		for _, nm := range fld.Names {
+			if v, _ := info.ObjectOf(nm).(*types.Var); v != nil {
+				params = append(params, v)
+			}
+		}
+	}
+	if len(params) != 2 {
+		r.Anchor(rule, "pkg/types.Ref(pkgPath, name)")
+		return
+	}
+	why := ""
+	fieldOf := map[*types.Var]string{}
+	nret := 0
+	ast.Inspect(f.Body, func(n ast.Node) bool {
+		if _, isLit := n.(*ast.FuncLit); isLit {
+			return false
+		}
+		ret, isRet := n.(*ast.ReturnStmt)
+		if !isRet || len(ret.Results) != 1 {
+			return true
+		}
+		nret++
+		e, _ := core.Resolve(info, f.Body, ret.Results[0])
+		if u, isU := ast.Unparen(e).(*ast.UnaryExpr); isU && u.Op == token.AND {
+			e = u.X
+		}
+		cl, isCL := ast.Unparen(e).(*ast.CompositeLit)
+		if !isCL {
+			why = "`" + core.ExprStr(ret) + "` does not return a value constructed from the parameters"
+			return true
+		}
+		seen := map[*types.Var]bool{}
+		for _, el := range cl.Elts {
+			kv, isKV := el.(*ast.KeyValueExpr)
+			if !isKV {
+				continue
+			}
+			v := core.VarOf(info, kv.Value)
+			if v == nil {
+				continue
+			}
+			for _, pv := range params {
+				if v == pv {
+					seen[pv] = true
+					fieldOf[pv] = identOf(kv.Key).Name
+				}
+			}
+		}
+		for _, pv := range params {
+			if !seen[pv] {
+				why = "the parameter " + pv.Name() + " is not stored as it is in `" + core.ExprStr(cl) + "`"
+			}
+		}
+		return true
+	})
+	for _, pv := range params {
+		if len(core.DefsOf(info, f.Body, pv)) > 0 {
+			why = "the parameter " + pv.Name() + " is rewritten before it is stored"
+		}
+	}
+	if nret == 0 {
+		why = "no return of a constructed value"
+	}
+	r.Check(why == "", rule, f, "Ref(path, name) stands for exactly that path and name", f.Node().Pos(), "both parameters are stored unchanged in the returned value",
+		why+": the tracker registers the reference under another path than the one the caller looks up (LocalNameOf(path) answers \"\" and the reference is written unqualified while its import sits unused in the block)")
+	// the accessors answer the stored fields
+	pathField, nameField := fieldOf[params[0]], fieldOf[params[1]]
+	if why != "" || pathField == "" || nameField == "" {
+		return
+	}
+	tn := ""
+	if res := f.Decl.Type.Results; res != nil {
+		ast.Inspect(f.Body, func(n ast.Node) bool {
+			if cl, ok := n.(*ast.CompositeLit); ok && tn == "" {
+				tn = core.NamedTypeName(info.TypeOf(cl))
+			}
+			return true
+		})
+	}
+	short := tn[strings.LastIndex(tn, ".")+1:]
+	for _, acc := range []struct{ m, field string }{{"Pkg", pathField}, {"Name", nameField}} {
+		m := p.FuncByName("pkg/types", "(*"+short+")."+acc.m)
+		if m == nil {
+			m = p.FuncByName("pkg/types", "("+short+")."+acc.m)
+		}
+		if m == nil {
+			r.Anchor(rule, "pkg/types.(*"+short+")."+acc.m)
+			continue
+		}
+		m = flatten(p, m)
+		minfo := m.Info()
+		recv := recvVar(m)
+		bad := ""
+		ast.Inspect(m.Body, func(n ast.Node) bool {
+			ret, isRet := n.(*ast.ReturnStmt)
+			if !isRet || len(ret.Results) != 1 {
+				return true
+			}
+			e, _ := core.Resolve(minfo, m.Body, ret.Results[0])
+			if c, isCall := ast.Unparen(e).(*ast.CallExpr); isCall && core.CalleeName(minfo, c) == "go/types.NewPackage" && len(c.Args) == 2 {
+				e, _ = core.Resolve(minfo, m.Body, c.Args[0])
+			}
+			sel, isSel := ast.Unparen(e).(*ast.SelectorExpr)
+			if !isSel || sel.Sel.Name != acc.field || core.VarOf(minfo, sel.X) != recv || recv == nil {
+				bad = "`" + core.ExprStr(ret) + "` does not answer the field " + acc.field + " as stored"
+			}
+			return true
+		})
+		r.Check(bad == "", rule, m, acc.m+"() answers what Ref stored", m.Node().Pos(), "returns the receiver's "+acc.field+" (as the path of a package object for Pkg)",
+			bad+": the package registered for the reference is not the one it was made from")
 	}
 }
